@@ -41,6 +41,10 @@ def check(cfg, name):
     for variant in (name.upper(), name.lower(), name.title()):
         if variant.lower() == name.lower() and conv.convert_label(variant).label is not got:
             return f"case variant {variant!r} converts to {conv.convert_label(variant).label!r}, {name!r} to {got!r}"
+    # every name registered for the family maps to the label it is registered with (first row wins), whatever characters it contains
+    row = next((li for li in infos if li.name == name.lower()), None)
+    if row is not None and got is not row.label:
+        return f"registered name {name!r} converts to {got!r}, it is registered for {row.label!r}"
     image = {li.label for li in infos} | {conv.label_type.UNKNOWN}
     for L in image:
         if name.lower() == L.value and got is not L:
